@@ -6,6 +6,7 @@ import SuppModel.Extract.Shape
 import SuppModel.Extract.LayoutPair
 import SuppModel.Extract.Rename
 import SuppModel.Extract.RenameAttr
+import SuppModel.Extract.Trans
 import SuppModel.Flow.Scoping
 
 namespace SuppModel.Drv.Extract
@@ -139,8 +140,9 @@ def handle (j : Json) : Json :=
         let mt := markTree t cursor p newId k
         let tr := t.rename p newId
         let equal := m.beq mt
-        Json.mkObj [("ok", Json.bool (equal && markOK t cursor p newId k)), ("p", posJson p), ("newId", Json.str newId),
-          ("equal", Json.bool equal), ("renQ", Json.bool (t.all (renQ p newId))),
+        Json.mkObj [("ok", Json.bool (equal && markOK2 t cursor p newId k)), ("p", posJson p), ("newId", Json.str newId),
+          ("equal", Json.bool equal), ("tgtQ", Json.bool (t.all (tgtQ p))),
+          ("renQ", Json.bool (t.all (renQ p newId))),   -- cross-check only: the conclusion of the proved rename lemma, evaluated
           ("layoutPair", Json.bool (layoutPairOK tr mt)),
           ("cursorOK", Json.bool ((pairS tr).all (fun l => Pos.lt cursor (pairPsi tr mt l) == Pos.lt cursor l))),
           ("nameFixed", Json.bool (decide (pairPhi tr mt p = p)))]
@@ -160,7 +162,7 @@ def handle (j : Json) : Json :=
         let equal := m.beq mt
         let qs := valueNamePos t p z
         let S := pairS tr
-        Json.mkObj [("ok", Json.bool (equal && markAttrOK t cursor p z newAttr k)), ("p", posJson p), ("size", Json.num (z : Nat)),
+        Json.mkObj [("ok", Json.bool (equal && markAttrOK2 t cursor p z newAttr k)), ("p", posJson p), ("size", Json.num (z : Nat)),
           ("newAttr", Json.str newAttr), ("equal", Json.bool equal), ("renQ", Json.bool (t.all (renAQ p z newAttr))),
           ("layoutPair", Json.bool (layoutPairOK tr mt)),
           ("queries", Json.arr (qs.map posJson).toArray),
